@@ -145,7 +145,8 @@ class ExprMixin:
         self.consts[key] = c
         try:
             f2 = self.make_frame_for_file(file)
-            v = self.ev(expr, st, f2)
+            from .eng_core import State
+            v = self.ev(expr, st if st is not None else State(), f2)
             if is_int(v) or isinstance(v, int):
                 self.consts[key] = v
                 return v
